@@ -14,13 +14,13 @@ import (
 func init() {
 	register(&Property{
 		ID:       "C04",
-		Patterns: []string{"./sql/sorters", "./sql/iters", "./sql/analyzer", "./sql/planbuilder", "./sql/rowexec"},
+		Patterns: []string{"./sql/sorters", "./sql/iters", "./sql/analyzer", "./sql/planbuilder", "./sql/rowexec", "./memory"},
 		Explanation: "Decided: (O1) the one row comparator every ordering executor uses, sorters.RowSorter.CompareRows, folded over {a NULL?} x {b NULL?} x {ASC,DESC} x {sign of the type comparison} " +
 			"with MySQL's NullsFirst ordering, places NULL first under ASC and last under DESC, inverts the sign under DESC and defers to the next sort key exactly on a tie; " +
 			"(O1b) IsLesserRow is 'CompareRows < 0', the top-N max-heap's Less is the inverted comparator, the single-row top iterator replaces its candidate exactly when the new row is lesser; " +
 			"(O2) every planbuilder function that builds both clauses applies Offset first and Limit on top of it (Limit(Offset(x)): skip m then take n); " +
 			"(O3) analyzer.insertTopNNodes gives TopN the count limit+offset when an Offset is present and re-applies the Offset above the TopN; " +
-			"(O4) the top-N heap evicts its maximum exactly when it holds more than n rows; (O5) LimitIter stops exactly when pos >= limit and counts a row only after reading it; offsetIter discards while skip > 0.",
+			"(O6) the in-memory backend keeps its secondary index storage ordered by a comparator that, per key column, sends two NULLs to the next column, sorts NULL before values and otherwise follows the type comparison (the order an index scan serves ORDER BY from); (O7) every executor function that composes an OFFSET iterator with sort/top-N/LIMIT iterators (set operations build all of them inline) sorts first, then skips, then limits; (O4) the top-N heap evicts its maximum exactly when it holds more than n rows; (O5) LimitIter stops exactly when pos >= limit and counts a row only after reading it; offsetIter discards while skip > 0.",
 		NotCovered: "stability/tie order, order provided by an index (replaceIdxSort), collation-specific key order (C29), the type comparison itself (C26), NullsLast orderings used by other dialects (reported as information)",
 		Technique:  "finite-domain abstract interpretation of the comparator (AST folding) + constructor-operand dataflow and CFG ordering",
 		Run:        runC04,
@@ -33,6 +33,8 @@ func runC04(c *Ctx) {
 	c.Rule("C04-O2", "in every function that constructs both plan.NewOffset and plan.NewLimit on the same node variable, the Offset is constructed first and the Limit wraps it", 4)
 	c.Rule("C04-O3", "insertTopNNodes: under an Offset the TopN count combines limit.Limit and offset.Offset and the Offset is re-applied on the TopN; without it the count is limit.Limit", 3)
 	c.Rule("C04-O4", "GetTopNRows pops the heap maximum exactly when Len() > n", 1)
+	c.Rule("C04-O6", "memory backend index order (what an index scan returns): per key column both NULL -> next column, NULL sorts before values, otherwise the sign of the type comparison, tie -> next column", 6)
+	c.Rule("C04-O7", "executor composition: in every rowexec function that builds an OFFSET iterator, no sort / top-N iterator is built after it (ORDER BY orders the rows before OFFSET skips any), and no OFFSET iterator is built after a LIMIT iterator", 2)
 	c.Rule("C04-O5", "LimitIter.Next returns EOF exactly when currentPos >= Limit and increments only after a successful child read; offsetIter.Next discards rows while skip > 0 and decrements per discarded row", 4)
 
 	so := c.P.Pkg("sql/sorters")
@@ -320,6 +322,14 @@ func runC04(c *Ctx) {
 		} else {
 			c04LimitIter(c, it, fd)
 		}
+	}
+	if re := c.P.Pkg("sql/rowexec"); re != nil {
+		c04ExecComposition(c, re)
+	}
+	if mem := c.P.Pkg("memory"); mem != nil {
+		c04IndexOrder(c, mem)
+	} else {
+		c.Undecided("C04-O6", "memory", 0, "package not loaded")
 	}
 	if re := c.P.Pkg("sql/rowexec"); re != nil {
 		if fd := c.P.Decl(LookupFunc(re, "offsetIter.Next")); fd == nil {
@@ -627,4 +637,200 @@ func c04OffsetIter(c *Ctx, re *packages.Package, fd *ast.FuncDecl) {
 	})
 	c.Check(okLoop, "C04-O5", "offsetIter.Next/skip-loop", fd.Pos(), "", "offsetIter must discard rows while skip > 0 and stop at 0 (OFFSET m skips exactly m rows)")
 	c.Check(okDec, "C04-O5", "offsetIter.Next/skip-dec", fd.Pos(), "", "each discarded row must decrement skip (and be read from the child)")
+}
+
+
+// c04IndexOrder folds the less-function that memory.TableData.sortSecondaryIndexes passes to
+// sort.SliceStable: the order in which an index scan returns rows.
+func c04IndexOrder(c *Ctx, mem *packages.Package) {
+	fd := c.P.Decl(LookupFunc(mem, "TableData.sortSecondaryIndexes"))
+	if fd == nil {
+		c.Undecided("C04-O6", "TableData.sortSecondaryIndexes", 0, "not found")
+		return
+	}
+	info := mem.TypesInfo
+	var lit *ast.FuncLit
+	ast.Inspect(fd.Body, func(n ast.Node) bool {
+		if call, ok := n.(*ast.CallExpr); ok && lit == nil {
+			if fn := Callee(info, call); fn != nil && fn.Pkg() != nil && fn.Pkg().Path() == "sort" && (fn.Name() == "SliceStable" || fn.Name() == "Slice") && len(call.Args) == 2 {
+				lit, _ = call.Args[1].(*ast.FuncLit)
+			}
+		}
+		return true
+	})
+	if lit == nil || len(lit.Type.Params.List) == 0 {
+		c.Undecided("C04-O6", "TableData.sortSecondaryIndexes/less", fd.Pos(), "no sort.Slice/SliceStable with a less-function literal found")
+		return
+	}
+	var params []types.Object
+	for _, fl := range lit.Type.Params.List {
+		for _, n := range fl.Names {
+			params = append(params, info.Defs[n])
+		}
+	}
+	if len(params) != 2 {
+		c.Undecided("C04-O6", "TableData.sortSecondaryIndexes/less", lit.Pos(), "less-function does not have two index parameters")
+		return
+	}
+	for _, lNil := range []bool{false, true} {
+		for _, rNil := range []bool{false, true} {
+			for _, sg := range []int{-1, 0, 1} {
+				if (lNil || rNil) && sg != 0 {
+					continue
+				}
+				key := fmt.Sprintf("index-less/l=%s,r=%s/cmp=%d", nilStr(lNil), nilStr(rNil), sg)
+				left, right := &MSym{Name: "left", Nil: lNil}, &MSym{Name: "right", Nil: rNil}
+				m := &Mini{P: c.P, Info: info}
+				m.Range = func(m *Mini, rs *ast.RangeStmt) (MV, MV, bool) { return &MSym{Name: "t"}, &MSym{Name: "typ"}, true }
+				m.Index = func(m *Mini, x *ast.IndexExpr) (MV, bool) {
+					// storage[i][t] / storage[j][t]: which row is decided by the less-function parameter used
+					var who types.Object
+					ast.Inspect(x, func(n ast.Node) bool {
+						if id, ok := n.(*ast.Ident); ok {
+							if o := info.Uses[id]; o == params[0] || o == params[1] {
+								who = o
+							}
+						}
+						return true
+					})
+					switch who {
+					case params[0]:
+						return left, true
+					case params[1]:
+						return right, true
+					}
+					return nil, false
+				}
+				foldErr := ""
+				m.Call = func(m *Mini, call *ast.CallExpr, fn *types.Func, recv MV, args []MV) ([]MV, bool) {
+					if fn == nil || len(args) != 3 {
+						return nil, false
+					}
+					sig := fn.Type().(*types.Signature)
+					if sig.Results().Len() != 2 || !IsErrorType(sig.Results().At(1).Type()) {
+						return nil, false
+					}
+					s := 0
+					switch {
+					case args[1] == MV(left) && args[2] == MV(right):
+						s = sg
+					case args[1] == MV(right) && args[2] == MV(left):
+						s = -sg
+					default:
+						foldErr = "type comparison on unexpected operands"
+					}
+					if lNil || rNil {
+						foldErr = "a NULL reaches the type comparison (Compare does not order NULLs first)"
+					}
+					return []MV{constant.MakeInt64(int64(s)), &MSym{Name: "nil", Nil: true}}, true
+				}
+				bind := map[types.Object]MV{params[0]: &MSym{Name: "i"}, params[1]: &MSym{Name: "j"}}
+				res, returned, panicked, _, err := m.RunBlock(lit.Body.List, bind)
+				if err != nil || panicked || !returned || len(res) != 1 {
+					c.Undecided("C04-O6", key, lit.Pos(), fmt.Sprintf("not foldable: %v", err))
+					continue
+				}
+				got := ""
+				if _, ok := res[0].(MNext); ok {
+					got = "next"
+				} else if b, ok := MBool(res[0]); ok {
+					got = fmt.Sprint(b)
+				}
+				want := ""
+				switch {
+				case lNil && rNil:
+					want = "next"
+				case lNil:
+					want = "true"
+				case rNil:
+					want = "false"
+				case sg == 0:
+					want = "next"
+				default:
+					want = fmt.Sprint(sg < 0)
+				}
+				if foldErr != "" {
+					c.Bad("C04-O6", key, lit.Pos(), foldErr)
+					continue
+				}
+				c.Check(got == want, "C04-O6", key, lit.Pos(), got, fmt.Sprintf("index order: less yields %s, must be %s (NULLs first, both NULL / tie defer to the next key column; otherwise rows served in index order are not ordered by the later key columns)", got, want))
+			}
+		}
+	}
+}
+
+
+// c04ExecComposition: order of iterator construction in rowexec functions that build an
+// offsetIter. Later constructions wrap earlier ones (each takes the running `iter`), so a sort or
+// top-N iterator built after the OFFSET iterator sorts rows of which the first m (in arrival
+// order) are already gone.
+func c04ExecComposition(c *Ctx, re *packages.Package) {
+	info := re.TypesInfo
+	offT, _ := re.Types.Scope().Lookup("offsetIter").(*types.TypeName)
+	if offT == nil {
+		c.Undecided("C04-O7", "rowexec.offsetIter", 0, "type not found")
+		return
+	}
+	isLitOf := func(n ast.Node, match func(t types.Type) bool) bool {
+		found := false
+		ast.Inspect(n, func(m ast.Node) bool {
+			if _, ok := m.(*ast.FuncLit); ok {
+				return false
+			}
+			if cl, ok := m.(*ast.CompositeLit); ok {
+				if tv, ok := info.Types[cl]; ok && match(tv.Type) {
+					found = true
+				}
+			}
+			return !found
+		})
+		return found
+	}
+	isOffset := func(n ast.Node) bool {
+		return isLitOf(n, func(t types.Type) bool { return types.Identical(t, offT.Type()) })
+	}
+	isLimit := func(n ast.Node) bool {
+		return isLitOf(n, func(t types.Type) bool {
+			nt, ok := t.(*types.Named)
+			return ok && nt.Obj().Name() == "LimitIter" && nt.Obj().Pkg() != nil && strings.HasSuffix(nt.Obj().Pkg().Path(), "sql/iters")
+		})
+	}
+	isSort := func(n ast.Node) bool {
+		return ContainsCall(info, n, func(fn *types.Func, call *ast.CallExpr) bool {
+			return fn.Pkg() != nil && strings.HasSuffix(fn.Pkg().Path(), "sql/iters") && (fn.Name() == "NewSortIter" || fn.Name() == "NewTopRowsIter")
+		})
+	}
+	for _, file := range re.Syntax {
+		for _, d := range file.Decls {
+			fd, ok := d.(*ast.FuncDecl)
+			if !ok || fd.Body == nil || !isOffset(fd.Body) {
+				continue
+			}
+			g := c.P.CFG(info, fd.Body)
+			key := "rowexec." + DeclName(fd)
+			var viol []string
+			var pos ast.Node
+			for _, b := range g.Blocks {
+				for i, n := range b.Nodes {
+					if isOffset(n) {
+						if p := PathAvoiding(g, CFGPoint{b, i}, nil, isSort, nil); p != nil {
+							viol = append(viol, "a sort/top-N iterator is built after the OFFSET iterator (rows are skipped in arrival order, before ORDER BY)")
+							pos = p[len(p)-1]
+						}
+					}
+					if isLimit(n) {
+						if p := PathAvoiding(g, CFGPoint{b, i}, nil, isOffset, nil); p != nil {
+							viol = append(viol, "an OFFSET iterator is built after the LIMIT iterator (Offset(Limit(x)) returns n-m rows)")
+							pos = p[len(p)-1]
+						}
+					}
+				}
+			}
+			if len(viol) > 0 {
+				c.Bad("C04-O7", key, pos.Pos(), strings.Join(viol, "; "))
+			} else {
+				c.Ok("C04-O7", key, fd.Pos(), "sort, then offset, then limit")
+			}
+		}
+	}
 }
